@@ -19,6 +19,12 @@ After EVERY write operation (add_*, update_*, rejected update, install_adf*):
                    hold either their old or their new content (the statement does not demand atomicity).
 install_adf* front-ends are fed synthetic ADF files (vf/adf_c06.py); the arguments they hand to repository.update_* are
 recorded by an argument recorder and those exact arrays must be read back from the repository_path given to install_*.
+Every front-end (directly and through install_files) is driven in three modes: file found in adas_path (download=False);
+download=True with the file absent from adas_path and fetched - urllib.request.urlretrieve is replaced, only around that
+operation, by a harness function that writes the generated ADF text to the requested destination and records URL and
+destination; download=True with the file already cached in <repository_path>/_download_cache.  The audit / $HOME / cwd
+sensors judge the download cache like any other file: it must lie under the repository_path that was passed
+(key <install_fn>:download-cache-outside-repository_path:<where>).
 """
 import copy
 import inspect
@@ -38,7 +44,8 @@ ENGINES = ["adf_c06"]
 RULE = ("random sequential histories (5-60 operations) over the 14 key families / 13 update_* + 14 add_* functions of "
         "cherab.openadas.repository and the 11 install_adf* front-ends, drawn from small per-history pools of species "
         "(H-Ar, isotopes D, T, He3, ... and the hydrogen/protium symbol twins), charges 0..Z, integer / string / "
-        "mixed-case transitions, metastables, table shapes 1x1..12x15 and value classes (normal, denormal, 1e+-300, "
+        "mixed-case transitions, metastables, install modes (file in adas_path / download=True fetched through a faked "
+        "urlretrieve / already in the repository's _download_cache), table shapes 1x1..12x15 and value classes (normal, denormal, 1e+-300, "
         "-0.0, integers, DBL_MAX); workload classes: mixed, same-element cross-family, isotopes, transition aliasing, "
         "overwrite-heavy, invalid updates, install front-ends, extreme values. A history is non-trivial when at least "
         "one bit-exact read-back of a written key AND one re-read of another stored key were evaluated; distinct = "
@@ -69,7 +76,8 @@ THOROUGH = dict(cases=15000, workers=16, timecap=600)
 # minima sized at ~1/4 of an undisturbed quick run, so that a heavily loaded machine (time cap reached early) still decides
 REQUIRED = {"readback": 1000, "others_untouched": 8000, "never_written": 8000, "alias_read": 2000,
             "audit_write_open": 1000, "audit_mkdir": 1000, "home_clean": 40, "rejected_update": 60,
-            "rejected_intact": 600, "install_call": 40, "install_readback": 60}
+            "rejected_intact": 600, "install_call": 40, "install_readback": 60, "install_download_fetch": 25,
+            "install_download_cache_hit": 15}
 
 # ----------------------------------------------------------------------------------------------------------------
 # independent species table: variable name in cherab.core.atomic.elements -> (symbol, Z)
@@ -442,7 +450,8 @@ def _bad_item(rng, pools, fam, vclass):
 
 def _install_op(rng, pools, big):
     kind = _pick(rng, list(INSTALL_ROUTES))
-    op = {"op": "install", "kind": kind, "via_files": bool(rng.random() < 0.3)}
+    op = {"op": "install", "kind": kind, "via_files": bool(rng.random() < 0.3),
+          "download": ["none", "fetch", "cached"][int(rng.choice(3, p=[0.5, 0.3, 0.2]))]}
     lg = lambda lo, hi, n: sorted(round(float(v), 5) for v in rng.uniform(lo, hi, size=n))
     if kind.startswith("adf11"):
         el = _pick(rng, [s for s in pools.species if s in ELEMENTS] or ELEMENTS)
@@ -658,7 +667,14 @@ def fixed_cases(tier):
             kinds.remove(op["kind"])
             ops.append(op)
     from vf.core import jsonable
+    for op in ops:
+        op["download"] = "none"
     cases.append(jsonable({"cls": "install", "repo_exists": False, "repo_name": "Repo.v2", "ops": ops, "probes": []}))
+    # the same front-ends with download=True: file fetched (fake network) / already cached in the given repository,
+    # called directly and through install_files()
+    for mode, via, exists in (("fetch", False, False), ("fetch", True, True), ("cached", False, True), ("cached", True, False)):
+        ops2 = [dict(copy.deepcopy(op), download=mode, via_files=via) for op in ops]
+        cases.append(jsonable({"cls": "install", "repo_exists": exists, "repo_name": "repository", "ops": ops2, "probes": []}))
     # rejected updates in the middle of a history, every invalidity kind on the beam families
     ops = [add("beam_stopping", {"beam": "deuterium", "tgt": "carbon", "q": 6},
                {"e": [1e3, 1e4], "n": [1e19], "t": [10.0, 100.0, 1000.0], "sen": [[1e-14], [2e-14]], "st": [1.0, 2.0, 3.0],
@@ -1100,7 +1116,18 @@ def _under(path, root):
     return path == root or path.startswith(root.rstrip(os.sep) + os.sep)
 
 
-def _judge_audit(ctx, H, fn, events, repo_path, home):
+def _is_download_path(path, dests):
+    """Is `path` part of a download cache: a recorded download destination, one of its parent directories or a sibling,
+    or (when nothing was fetched) a path with a _download_cache component."""
+    rp = os.path.realpath(os.path.abspath(path))
+    for d in dests:
+        rd = os.path.realpath(os.path.abspath(d))
+        if rd == rp or rd.startswith(rp.rstrip(os.sep) + os.sep) or os.path.dirname(rd) == os.path.dirname(rp):
+            return True
+    return "_download_cache" in rp.split(os.sep)
+
+
+def _judge_audit(ctx, H, fn, events, repo_path, home, download_dests=None):
     """-> True if some write went outside the repository path."""
     outside = False
     for ev, path in events:
@@ -1122,6 +1149,12 @@ def _judge_audit(ctx, H, fn, events, repo_path, home):
             where = "cwd"
         else:
             where = "elsewhere"
+        if download_dests is not None and _is_download_path(path, download_dests):
+            ctx.viol("%s:download-cache-outside-repository_path:%s" % (fn, where),
+                     "%s(download=True, repository_path=<repo>) performed %s on %s: the download cache must lie under the "
+                     "repository_path that was passed" % (fn, ev, path.replace(home, "$HOME")),
+                     event=ev, path=path.replace(home, "$HOME"))
+            continue
         ctx.viol("%s:writes-outside-repository_path:%s" % (fn, where),
                  "%s was given repository_path=%s but performed %s on %s" % (fn, "<repo>", ev, path.replace(home, "$HOME")),
                  event=ev, path=path.replace(home, "$HOME"))
@@ -1194,11 +1227,8 @@ def _flatten(ufn, rates):
     return res
 
 
-def _write_adf(op, adas_dir, n):
+def _adf_text(op):
     kind = op["kind"]
-    rel = "%s/file%03d.dat" % (kind, n)
-    path = os.path.join(adas_dir, rel)
-    os.makedirs(os.path.dirname(path), exist_ok=True)
     if kind.startswith("adf11"):
         name = op["species"]
         txt = adfw.adf11_text(name, SPECIES[name][1], op["log_ne"], op["log_te"], [(b[0], b[1]) for b in op["blocks"]], kind[5:])
@@ -1209,9 +1239,59 @@ def _write_adf(op, adas_dir, n):
     else:
         txt = adfw.adf2x_text(op["charge"], op["svref"], SPECIES[op["target"]][0], op["tref"], op["eb"], op["dt"], op["sv"],
                               op["eref"], op["dref"], op["tt"], op["svt"])
+    return txt
+
+
+def _write_adf(op, root, n):
+    """Write the synthetic ADF file of an install operation below `root`; -> path relative to root."""
+    rel = "%s/file%03d.dat" % (op["kind"], n)
+    path = os.path.join(root, rel)
+    os.makedirs(os.path.dirname(path), exist_ok=True)
     with open(path, "w") as f:
-        f.write(txt)
+        f.write(_adf_text(op))
     return rel
+
+
+class _FakeDownload:
+    """Stands in for the network while an install_* front-end runs with download=True: urllib.request.urlretrieve
+    (the call install._locate_adas_file makes) writes the harness-generated ADF text to the requested destination and
+    records (url, destination).  Installed only around that one operation and restored afterwards.  The write happens
+    inside the audited region, so the destination is judged like every other file the front-end creates."""
+
+    def __init__(self, text):
+        self.text = text
+        self.fetched = []
+        self.saved = []
+
+    def __enter__(self):
+        import urllib.request
+
+        def fake_urlretrieve(url, filename=None, *a, **kw):
+            self.fetched.append((str(url), os.fsdecode(filename) if filename is not None else None))
+            if filename is None:
+                raise OSError("C06 harness: urlretrieve without a destination is not supported (no network)")
+            with open(filename, "w") as f:
+                f.write(self.text)
+            return filename, None
+
+        def no_network(*a, **kw):
+            raise OSError("C06 harness: no network access")
+
+        targets = [(urllib.request, "urlretrieve", fake_urlretrieve), (urllib.request, "urlopen", no_network)]
+        inst = _S["inst"]
+        for name, repl in (("urlretrieve", fake_urlretrieve), ("urlopen", no_network)):
+            if hasattr(inst, name):                      # `from urllib.request import urlretrieve` style
+                targets.append((inst, name, repl))
+        for obj, name, repl in targets:
+            self.saved.append((obj, name, getattr(obj, name)))
+            setattr(obj, name, repl)
+        return self
+
+    def __exit__(self, *exc):
+        for obj, name, real in reversed(self.saved):
+            setattr(obj, name, real)
+        self.saved = []
+        return False
 
 
 def _install_args(op, rel):
@@ -1487,7 +1567,21 @@ def _do_install(op, ctx, H, repo_path, adas_dir, home, n_file):
     if kind == "adf15" and not op["blocks"]:
         ctx.skip("empty adf15 file")
         return True
-    rel = _write_adf(op, adas_dir, n_file)
+    mode = op.get("download", "none")
+    ctx.mon("install_mode_" + mode)
+    empty_adas = os.path.join(os.path.dirname(adas_dir), "adas_without_the_file")
+    if mode == "none":
+        rel = _write_adf(op, adas_dir, n_file)
+        use_adas, dl = adas_dir, False
+    else:
+        # download=True and the file is NOT in adas_path: either fetched (fake network) or already cached inside
+        # the repository that is passed
+        os.makedirs(empty_adas, exist_ok=True)
+        use_adas, dl = empty_adas, True
+        if mode == "cached":
+            rel = _write_adf(op, os.path.join(repo_path, "_download_cache"), n_file)
+        else:
+            rel = "%s/file%03d.dat" % (kind, n_file)
     args, kw = _install_args(op, rel)
     f = getattr(_S["inst"], fn)
     if op.get("via_files") and not kw.get("header_format"):
@@ -1498,14 +1592,33 @@ def _do_install(op, ctx, H, repo_path, adas_dir, home, n_file):
         f = _S["inst"].install_files
     devnull = open(os.devnull, "w")
     out0 = sys.stdout
+    fake = _FakeDownload(_adf_text(op)) if dl else None
     with _Recorder() as rec:
         sys.stdout = devnull
         try:
-            err, ev = _guarded(f, *args, download=False, repository_path=repo_path, adas_path=adas_dir, **kw)
+            if fake is not None:
+                with fake:
+                    err, ev = _guarded(f, *args, download=True, repository_path=repo_path, adas_path=use_adas, **kw)
+            else:
+                err, ev = _guarded(f, *args, download=False, repository_path=repo_path, adas_path=use_adas, **kw)
         finally:
             sys.stdout = out0
             devnull.close()
-    outside = _judge_audit(ctx, H, fn, ev, repo_path, home)
+    dests = None
+    if fake is not None:
+        dests = [d for _, d in fake.fetched if d]
+        ctx.mon("install_download_fetch", len(fake.fetched))
+        if mode == "cached":
+            if fake.fetched:
+                ctx.skip("file cached under <repository_path>/_download_cache was fetched again (statement silent)")
+            else:
+                ctx.mon("install_download_cache_hit")
+        for url, d in fake.fetched:
+            ctx.mon("install_download_url_recorded")
+            ctx.notes.setdefault("download_examples", [])
+            if len(ctx.notes["download_examples"]) < 3:
+                ctx.notes["download_examples"].append({"fn": fn, "url": url, "dest": (d or "").replace(repo_path, "<repo>").replace(home, "$HOME")})
+    outside = _judge_audit(ctx, H, fn, ev, repo_path, home, download_dests=dests)
     if err is not None:
         # parsing problems belong to C08; C06 only requires that a failed install damaged nothing
         ctx.skip("%s raised %s (parser / install failure, judged by C08)" % (fn, type(err).__name__))
